@@ -4,6 +4,7 @@ import (
 	"context"
 	"fmt"
 	"io"
+	"strconv"
 	"strings"
 	"sync"
 	"time"
@@ -27,11 +28,24 @@ var lifeScenarios = []string{
 	"close-echo", "close-silent-peer", "close-peer-never-reads", "close-peer-floods", "close-peer-stalls-mid-frame", "close-peer-half-close",
 	"closenow-reader-blocked", "closenow-writer-blocked", "closenow-idle", "close-reader-blocked-echo",
 	"closeread-data-echo", "closeread-data-silent", "closeread-peer-close", "closeread-then-closenow",
+	"close-unmarshalable-reason", "close-invalid-code", "close-unmarshalable-reason-closeread",
 	"peer-close-then-close", "proto-error-then-close", "transport-failure-then-close", "abandoned-reader-close", "abandoned-writer-close", "netconn-close",
 }
 
+// stall points (bytes of a second frame — 64-bit length, so a 10- or 14-byte header — delivered in the same transport write as a
+// complete first frame, after which the peer goes silent): inside the header at every interesting offset, and inside the payload
+// before and beyond the 4096-byte read buffer
+var lifeStalls = []int{1, 2, 5, 8, 9, 10, 12, 13, 14, 15, 100, 3000, 4090, 4200}
+
 func genLife(r *Rng, tier string, stat func(string)) []string {
 	var out []string
+	for _, role := range []string{"client", "server"} {
+		for _, k := range lifeStalls {
+			out = append(out, fmt.Sprintf("scen=close-stall-%d role=%s", k, role), fmt.Sprintf("scen=cancel-stall-%d role=%s", k, role))
+			stat("scen:close-stall")
+			stat("scen:cancel-stall")
+		}
+	}
 	reps := 1
 	if tier == "thorough" {
 		reps = 4
@@ -82,6 +96,12 @@ func runLife(kv map[string]string) string {
 	case "close-silent-peer", "close-peer-floods", "close-peer-stalls-mid-frame", "closeread-data-silent", "close-peer-half-close":
 		echo = false
 	}
+	stallK := -1
+	if i := strings.Index(scen, "-stall-"); i > 0 {
+		stallK, _ = strconv.Atoi(scen[i+7:])
+		scen = scen[:i+6]
+		echo = false
+	}
 	e := &lifeEnv{c: c, raw: raw, role: role}
 	if scen != "close-peer-never-reads" && scen != "cancel-during-write" && scen != "closenow-writer-blocked" {
 		e.peer = startAutoPeer(raw, role, echo)
@@ -99,6 +119,29 @@ func runLife(kv map[string]string) string {
 		err := f()
 		e.dur = time.Since(t0)
 		e.step(err)
+	}
+	// like measure, for a call that may never return: after limit the step is recorded as blocked
+	measureT := func(f func() error, limit time.Duration) {
+		t0 := time.Now()
+		ch := make(chan error, 1)
+		go func() { ch <- f() }()
+		select {
+		case err := <-ch:
+			e.dur = time.Since(t0)
+			e.step(err)
+		case <-time.After(limit):
+			e.dur = limit
+			e.res = append(e.res, "blocked")
+		}
+	}
+	stallBytes := func() []byte {
+		f1 := rawFrame{Fin: true, Opcode: 1, Payload: []byte("hi"), DeclLen: -1}
+		f2 := rawFrame{Fin: true, Opcode: 2, Payload: make([]byte, 70000), DeclLen: -1}
+		if role == "server" {
+			f1.Masked, f1.Key = true, [4]byte{1, 2, 3, 4}
+			f2.Masked, f2.Key = true, [4]byte{5, 6, 7, 8}
+		}
+		return append(f1.Encode(), f2.Encode()[:stallK]...)
 	}
 	bound := "prompt"
 	closedAfter := func() string {
@@ -187,6 +230,32 @@ func runLife(kv map[string]string) string {
 			measure(func() error { return c.Write(ctx1, websocket.MessageText, []byte("x")) })
 		}
 		closedObs = "any" // the select in mu.lock may pick ctx.Done (connection stays open) or the lock (then the done context closes it)
+	case "close-stall":
+		// the peer stops after stallK bytes of a frame that arrived together with a complete one, and never answers
+		bound = "5s"
+		raw.Send(stallBytes())
+		time.Sleep(20 * time.Millisecond)
+		measureT(func() error { return c.Close(websocket.StatusNormalClosure, "bye") }, 14*time.Second)
+	case "cancel-stall":
+		raw.Send(stallBytes())
+		c.SetReadLimit(-1)
+		_, _, err := c.Read(bg) // the complete first message
+		e.step(err)
+		ctx1, cancel1 := context.WithCancel(bg)
+		go func() { time.Sleep(100 * time.Millisecond); cancel1() }()
+		measureT(func() error { _, _, err := c.Read(ctx1); return err }, 6*time.Second)
+		e.dur -= 100 * time.Millisecond
+		closedObs = closedAfter()
+	case "close-unmarshalable-reason", "close-invalid-code", "close-unmarshalable-reason-closeread":
+		// a Close whose frame cannot be marshalled still closes the connection and joins its goroutines
+		if scen == "close-unmarshalable-reason-closeread" {
+			c.CloseRead(bg)
+		}
+		code, reason := websocket.StatusNormalClosure, strings.Repeat("x", 124)
+		if scen == "close-invalid-code" {
+			code, reason = websocket.StatusCode(1006), ""
+		}
+		measureT(func() error { c.Close(code, reason); return nil }, 14*time.Second)
 	case "close-echo":
 		measure(func() error { return c.Close(websocket.StatusNormalClosure, "bye") })
 	case "close-silent-peer", "close-peer-half-close":
@@ -347,6 +416,30 @@ func runLife(kv map[string]string) string {
 	default:
 		return "unknown-scenario"
 	}
+	// C20: scenarios that end with Close / CloseNow having RETURNED: the library's goroutines must be gone at this point,
+	// before the harness's own cleanup below
+	gorAtReturn := ""
+	endsClosed := !strings.HasSuffix(scen, "-then-cancel") && !strings.HasPrefix(scen, "cancel-") && scen != "deadline-during-read"
+	if endsClosed && (len(e.res) == 0 || e.res[len(e.res)-1] != "blocked") {
+		crS, crE, tlE := 0, 0, 0
+		for _, ev := range websocket.VerifTrace(c) {
+			switch ev.Ev {
+			case websocket.VerifEvGoStart:
+				if ev.A == 1 {
+					crS++
+				}
+			case websocket.VerifEvGoExit:
+				if ev.A == 1 {
+					crE++
+				} else {
+					tlE++
+				}
+			}
+		}
+		if tlE != 1 || crS != crE {
+			gorAtReturn = fmt.Sprintf("leak-at-return:timeoutLoop-exits=%d:closeRead=%d/%d", tlE, crE, crS)
+		}
+	}
 	c.CloseNow()
 	if e.peer != nil {
 		select {
@@ -397,6 +490,9 @@ func runLife(kv map[string]string) string {
 	gor := "ok"
 	if tlExit != 1 || crStart != crExit {
 		gor = fmt.Sprintf("leak:timeoutLoop-exits=%d:closeRead=%d/%d", tlExit, crExit, crStart)
+	}
+	if gorAtReturn != "" {
+		gor = gorAtReturn
 	}
 	if armBad == "" {
 		armBad = "ok"
